@@ -545,7 +545,7 @@ func runOne(c *vh.Ctx, cf *vh.CaseFile, sc scenario) {
 }
 
 func run(c *vh.Ctx) error {
-	c.Res.Rule = "a scenario = G goroutines (1..8) x N calls (20..40) drawn from HasTx / NextTx / GetSizes / re-Acquire (tx-monitor), SubmitTx (tx-submission), GetChainBlockNo / re-acquire volatile|immutable (state query), GetPeers (peer sharing) against a tagging server with seeded reply delays; distinct by (G, N, seed); non-trivial = at least 2 goroutines"
+	c.Res.Rule = "a scenario = G goroutines (1..8) x N calls (20..40) drawn from HasTx / NextTx / GetSizes / re-Acquire (tx-monitor), SubmitTx (tx-submission), GetChainBlockNo / re-acquire volatile|immutable (state query), GetPeers (peer sharing) against a tagging server with seeded reply delays; plus a SEQUENCE class: one goroutine, 8-25 calls mixing Acquire(point)/AcquireVolatileTip/AcquireImmutableTip (also while acquired = re-acquire), Release, GetCurrentEra, GetEpochNo (era-dependent), GetChainPoint/GetSystemStart/GetChainBlockNo and tx-monitor Acquire/HasTx/NextTx/GetSizes/Release, against a server whose reported era changes with every request; distinct by (G, N, seed) or the op list; non-trivial = at least 2 goroutines / 3 calls"
 	c.Res.Modelled = []string{
 		"one request/response per critical section (the implicit acquire inside a first query is avoided by acquiring up front); Release has no reply and is outside the model",
 		"for requests without payload (NextTx, GetSizes, queries) the owner of request i is identified by the returned tag itself: the monitor then checks that tags are issued, unique per kind and non-decreasing per goroutine",
@@ -553,6 +553,9 @@ func run(c *vh.Ctx) error {
 	}
 	cf := c.NewCaseFile("c25", header)
 	cf.SetShardSize(40)
+	cfs := c.NewCaseFile("c25seq", seqHeader)
+	cfs.Type, cfs.Func = "scase", "smismatches"
+	cfs.SetShardSize(80)
 	if c.Replay != "" {
 		b, err := os.ReadFile(c.Replay)
 		if err != nil {
@@ -560,16 +563,29 @@ func run(c *vh.Ctx) error {
 		}
 		var rp struct {
 			Replay struct {
-				Scenario scenario `json:"scenario"`
+				Scenario    scenario     `json:"scenario"`
+				SeqScenario *seqScenario `json:"seq_scenario"`
 			} `json:"replay"`
 		}
 		if err := json.Unmarshal(b, &rp); err != nil {
 			return err
 		}
+		if rp.Replay.SeqScenario != nil {
+			runSeqOne(c, cfs, *rp.Replay.SeqScenario)
+			cfs.Flush()
+			return nil
+		}
 		runOne(c, cf, rp.Replay.Scenario)
 		cf.Flush()
 		return nil
 	}
+	// sequence class (acquire / re-acquire / release), regression corpus first
+	runSeqOne(c, cfs, seqScenario{Ops: []string{"acqV", "era", "acqI", "era", "epoch", "acqP", "epoch", "era", "rel", "era", "point", "acqV", "start", "acqV", "epoch"}})
+	runSeqOne(c, cfs, seqScenario{Ops: []string{"epoch", "acqP", "epoch", "blockno", "acqI", "era", "tmhas", "tmacq", "tmsizes", "tmrel", "tmnext"}})
+	for i := 0; i < c.Pick(14, 150); i++ {
+		runSeqOne(c, cfs, genSeq(c.Rng, 8+c.Rng.Intn(18)))
+	}
+	cfs.Flush()
 	runOne(c, cf, scenario{G: 4, N: 20, Seed: 4242})
 	for _, only := range []int{1, 5, 9} {
 		runOne(c, cf, scenario{G: 16, N: c.Pick(150, 600), Seed: c.Rng.U64(), Only: only})
